@@ -18,7 +18,7 @@ T=$(PYTHONPATH=$MUT/src /venv/bin/python -m pytest -q -p no:cacheprovider 2>&1 |
 ( cd $MUT && PYTHONPATH=$MUT/src timeout 300 /venv/bin/python $SEED/demo.py >/dev/null 2>&1 ); D=$?
 R=""
 for C in $CHECKS; do
-  OUT=$(cd /verif && YLD_REPO=$MUT VERIF_EVIDENCE_DIR=$SCR/evidence VERIF_REPLAY_DIR=$SCR/replays timeout 1200 /venv/bin/python -m harness.run $C 2>&1); RC=$?
+  OUT=$(cd /verif && YLD_REPO=$MUT VERIF_EVIDENCE_DIR=$SCR/evidence VERIF_REPLAY_DIR=$SCR/replays timeout 2700 /venv/bin/python -m harness.run $C 2>&1); RC=$?
   V=$(echo "$OUT" | grep -c "^VIOLATION")
   N=$(echo "$OUT" | grep -c "no-failing-input-found")
   R="$R $C:rc=$RC,viol=$V,nofail=$N"
